@@ -122,6 +122,18 @@ theorem enc_dec_good (env : Env) (hv : env.valid = true) (hc : CustomsGood env) 
         | succ fn =>
           simp only [noRaw, List.all_eq_true] at hn
           exact ⟨fn, hn v hv s hs⟩
+      | sumOther b vs o =>
+        simp only [ok, Bool.and_eq_true, Bool.or_eq_true, beq_iff_eq, List.all_eq_true, decide_eq_true_eq] at hok
+        obtain ⟨⟨⟨⟨hb, hd⟩, hvs⟩, hol⟩, hos⟩ := hok
+        refine (good_sumOther (e := enc env f) (d := dec env f) (K := kinds env) (nr := NR env) b vs o hb hd
+          (fun v hv => ⟨(hvs v hv).1.1, (hvs v hv).1.2, fun s hs => ih s fo ((hvs v hv).2 s hs)⟩) hol
+          (fun s hs => ih s fo (hos s hs))).mono (fun _ h => h) ?_
+        rintro ⟨fn, hn⟩
+        cases fn with
+        | zero => simp [noRaw] at hn
+        | succ fn =>
+          simp only [noRaw, Bool.and_eq_true, List.all_eq_true] at hn
+          exact ⟨fun v hv s hs => ⟨fn, hn.1 v hv s hs⟩, fun s hs => ⟨fn, hn.2 s hs⟩⟩
       | keepRaw s =>
         simp only [ok] at hok
         refine (good_keepRaw (ih s fo hok)).mono (fun _ h => h) ?_
